@@ -10,3 +10,6 @@ import Skv.Props.C18
 #print axioms C18_redistribute_content
 #print axioms C18_overflow_roundtrip
 #print axioms C18_replace_separator
+
+#print axioms C18_chain_ownership
+#print axioms rotRightBad_breaks
